@@ -156,8 +156,148 @@ def r16_e(prog: Program, chk: Check) -> None:
     chk.ob("R16.e", "node_visitor::BaseNodeVisitor._run_and_apply_changes::patch-convention", "start_lineno - 1 + offset" in t and "end_lineno + offset" in t and "offset += len(additions or []) - len(linenos)" in t, prog.site("node_visitor", ra), "patches use a 0-based start, an exclusive 1-based end and carry the length change forward")
 
 
+def _targets_of(stmt_var: str, test: ast.AST) -> bool:
+    return norm(test).replace(" ", "") in (f"len({stmt_var}.targets)==1", f"1==len({stmt_var}.targets)")
+
+
+def _conjuncts(guards) -> List[ast.AST]:
+    """Flatten the in-force guards into a list of tests known to be true."""
+    out: List[ast.AST] = []
+
+    def pos(t: ast.AST) -> None:
+        if isinstance(t, ast.BoolOp) and isinstance(t.op, ast.And):
+            for v in t.values:
+                pos(v)
+        elif isinstance(t, ast.UnaryOp) and isinstance(t.op, ast.Not):
+            neg(t.operand)
+        else:
+            out.append(t)
+
+    def neg(t: ast.AST) -> None:
+        if isinstance(t, ast.BoolOp) and isinstance(t.op, ast.Or):
+            for v in t.values:
+                neg(v)
+        elif isinstance(t, ast.UnaryOp) and isinstance(t.op, ast.Not):
+            pos(t.operand)
+        else:
+            out.append(ast.UnaryOp(op=ast.Not(), operand=t))
+
+    for t, inbody in guards:
+        (pos if inbody else neg)(t)
+    return out
+
+
+def r16_f(prog: Program, chk: Check) -> None:
+    chk.rule(
+        "R16.f",
+        "a fix that deletes a whole assignment statement is proposed only when the reported name is the statement's sole binding: "
+        "exactly one target and that target is not a tuple/list pattern",
+        floor=2,
+    )
+    m = "name_check_visitor"
+    n_sites = 0
+    for mod, q, fn in prog.iter_functions():
+        if mod != m:
+            continue
+        for c in calls_in(fn, "remove_node", nested=False):
+            if len(c.args) < 2 or not isinstance(c.args[1], ast.Name):
+                continue
+            n_sites += 1
+            sv = c.args[1].id
+            cj = _conjuncts(guards_of(c, fn))
+            texts = [norm(t).replace(" ", "") for t in cj]
+            one_target = any(t in (f"len({sv}.targets)==1", f"1==len({sv}.targets)") for t in texts) or any(t.startswith(f"{sv}.targets==[") for t in texts)
+            not_pattern = any(
+                t.startswith(f"notisinstance({sv}.targets[0],") and "ast.Tuple" in t and "ast.List" in t or t == f"isinstance({sv}.targets[0],ast.Name)"
+                for t in texts
+            ) or any(t.startswith(f"{sv}.targets==[") for t in texts)
+            is_assign = any(t == f"isinstance({sv},ast.Assign)" for t in texts)
+            key = f"{m}::{q}::remove_node({sv})"
+            if not is_assign:
+                chk.ob("R16.f", key + "::statement-kind", True, prog.site(m, c), "statement kind other than Assign: no multi-target form exists", nontrivial=False)
+                continue
+            chk.ob("R16.f", key + "::single-target", one_target, prog.site(m, c),
+                   f"`{sv}` may have several targets (`a = b = f()`): deleting the statement because one target is unused unbinds the others")
+            chk.ob("R16.f", key + "::target-is-not-a-pattern", not_pattern, prog.site(m, c),
+                   f"the single target of `{sv}` may be a tuple/list pattern whose other names are used")
+    if n_sites == 0:
+        raise AnchorError("no remove_node(<name>, <statement>) call found in name_check_visitor")
+
+
+def _offsets(fn: ast.FunctionDef, idx: ast.AST) -> Set[int]:
+    """Line offsets (relative to the error's own line) that `lines[idx]` can read:
+    loop variables over literal tuples are expanded, `lineno` is the error line."""
+    from .c01 import _int_eval
+
+    loop_vars: Dict[str, List[ast.AST]] = {}
+    for n in walk_no_nested(fn):
+        if isinstance(n, ast.For) and isinstance(n.target, ast.Name) and isinstance(n.iter, (ast.Tuple, ast.List)):
+            loop_vars[n.target.id] = list(n.iter.elts)
+    names = sorted({x.id for x in ast.walk(idx) if isinstance(x, ast.Name)} & set(loop_vars))
+    L = 1000
+    outs: Set[int] = set()
+
+    def rec(i: int, env: Dict[str, int]) -> None:
+        if i == len(names):
+            outs.add(_int_eval(idx, env) - (L - 1))
+            return
+        for e in loop_vars[names[i]]:
+            env2 = dict(env)
+            env2[names[i]] = _int_eval(e, {"lineno": L})
+            rec(i + 1, env2)
+
+    rec(0, {"lineno": L})
+    return outs
+
+
+def r16_g(prog: Program, chk: Check) -> None:
+    chk.rule(
+        "R16.g",
+        "scope of an ignore comment: a substring / regex search is applied only to the error's own line; any other line "
+        "suppresses only when the whole stripped line is the comment (a trailing comment never covers the next line)",
+        floor=2,
+    )
+    from .c11 import _ignore_return_ifs
+
+    m = "node_visitor"
+    fn = prog.func(m, "BaseNodeVisitor.show_error")
+    arms = _ignore_return_ifs(fn)
+    if not arms:
+        raise AnchorError("show_error: no ignore-comment arm found")
+    for n, idx_used, lv in arms:
+        idx_node = None
+        stripped = False
+        if lv is not None:
+            for a in local_assignments(fn, lv):
+                for sx in ast.walk(a):
+                    if isinstance(sx, ast.Subscript) and norm(sx.value) == "lines":
+                        idx_node = sx.slice
+                stripped = stripped or ".strip()" in norm(a)
+        if idx_node is None:
+            raise AnchorError(f"show_error: the ignore arm at line {n.lineno} does not read lines[...] through a local")
+        offs = _offsets(fn, idx_node)
+        # classify the tests that mention the line local
+        kinds: Set[str] = set()
+        for x in ast.walk(n.test):
+            if isinstance(x, ast.Compare) and any(isinstance(y, ast.Name) and y.id == lv for y in ast.walk(x)):
+                for o in x.ops:
+                    kinds.add("EQ" if isinstance(o, ast.Eq) else "SEARCH" if isinstance(o, (ast.In, ast.NotIn)) else "OTHER")
+            if isinstance(x, ast.Call) and any(isinstance(y, ast.Name) and y.id == lv for a_ in x.args for y in ast.walk(a_)):
+                nm = last_attr(x)
+                kinds.add("EQ" if nm == "fullmatch" else "SEARCH")
+        for off in sorted(offs):
+            whole_line = kinds == {"EQ"} and stripped
+            chk.ob("R16.g", f"{m}::BaseNodeVisitor.show_error::ignore-arm::offset={off}", off == 0 or whole_line, prog.site(m, n),
+                   f"the arm reading the line at offset {off} from the error matches by {sorted(kinds)}: a comment trailing code on another line would suppress this diagnostic too "
+                   "(and add-ignores would write one comment for two diagnostics)")
+            chk.ob("R16.g", f"{m}::BaseNodeVisitor.show_error::ignore-arm::offset={off}::reach", off in (0, -1), prog.site(m, n),
+                   f"ignore comments apply to their own line and, alone on a line, to the next one; offset {off} is neither")
+
+
 def run(prog: Program, chk: Check) -> None:
     r16_ab(prog, chk)
     r16_c(prog, chk)
     r16_d(prog, chk)
     r16_e(prog, chk)
+    r16_f(prog, chk)
+    r16_g(prog, chk)
